@@ -8,6 +8,7 @@ package main
 // which is the only way to observe the parity bits without a hook in /repo.
 
 import (
+	"bytes"
 	"strconv"
 	"unicode/utf8"
 
@@ -56,6 +57,27 @@ func flag01(s string) bool {
 }
 
 func evalC19(op string, args []string) string {
+	// the argument buffers of this case (with their spare capacity) and what they held
+	cache, saved := map[int][]byte{}, map[int][]byte{}
+	A := func(i int) []byte {
+		if b, ok := cache[i]; ok {
+			return b
+		}
+		b := unhx(args[i])
+		cache[i] = b
+		saved[i] = append([]byte{}, b[:cap(b)]...)
+		return b
+	}
+	r := evalC19Inner(op, args, A)
+	for i, b := range cache {
+		if !bytes.Equal(b[:cap(b)], saved[i]) {
+			return "arguments-changed"
+		}
+	}
+	return r
+}
+
+func evalC19Inner(op string, args []string, A func(int) []byte) string {
 	need := map[string]int{"utf16": 1, "chash": 3, "nthash": 1, "ntpw": 1, "chresp": 2, "descrypt": 2, "paritypad": 1,
 		"ntresp": 4, "authresp": 5, "masterkey": 2, "startkey": 3, "makekey": 3}
 	if n, ok := need[op]; !ok || len(args) != n {
@@ -63,41 +85,41 @@ func evalC19(op string, args []string) string {
 	}
 	switch op {
 	case "utf16":
-		return okOrErr(rfc2759.ToUTF16(unhx(args[0])))
+		return okOrErr(rfc2759.ToUTF16(A(0)))
 	case "chash":
-		return held(rfc2759.ChallengeHash(unhx(args[0]), unhx(args[1]), unhx(args[2])), nil, func() {
-			rfc2759.ChallengeHash(other(unhx(args[0])), unhx(args[1]), other(unhx(args[2])))
+		return held(rfc2759.ChallengeHash(A(0), A(1), A(2)), nil, func() {
+			rfc2759.ChallengeHash(other(A(0)), A(1), other(A(2)))
 		})
 	case "nthash":
-		return held(rfc2759.NTPasswordHash(unhx(args[0])), nil, func() { rfc2759.NTPasswordHash(other(unhx(args[0]))) })
+		return held(rfc2759.NTPasswordHash(A(0)), nil, func() { rfc2759.NTPasswordHash(other(A(0))) })
 	case "ntpw":
-		u, err := rfc2759.ToUTF16(unhx(args[0]))
+		u, err := rfc2759.ToUTF16(A(0))
 		if err != nil {
 			return "err"
 		}
 		return "ok " + hx(rfc2759.NTPasswordHash(u))
 	case "chresp":
-		return held(rfc2759.ChallengeResponse(unhx(args[0]), unhx(args[1])), nil, func() {
-			rfc2759.ChallengeResponse(other(unhx(args[0])), other(unhx(args[1])))
+		return held(rfc2759.ChallengeResponse(A(0), A(1)), nil, func() {
+			rfc2759.ChallengeResponse(other(A(0)), other(A(1)))
 		})
 	case "descrypt":
-		return "ok " + hx(rfc2759.DESCrypt(unhx(args[0]), unhx(args[1])))
+		return "ok " + hx(rfc2759.DESCrypt(A(0), A(1)))
 	case "paritypad":
 		if !c19LinkAvailable {
 			return "UNOBSERVABLE" // built with -tags c19nolink: the unexported function is out of reach
 		}
-		return "ok " + hx(rfc2759ParityPadDESKey(unhx(args[0])))
+		return "ok " + hx(rfc2759ParityPadDESKey(A(0)))
 	case "ntresp":
-		priorVariants([][]byte{unhx(args[0]), unhx(args[1]), unhx(args[2]), unhx(args[3])}, func(a [][]byte) { rfc2759.GenerateNTResponse(a[0], a[1], a[2], a[3]) })
-		r, err := rfc2759.GenerateNTResponse(unhx(args[0]), unhx(args[1]), unhx(args[2]), unhx(args[3]))
+		priorVariants([][]byte{A(0), A(1), A(2), A(3)}, func(a [][]byte) { rfc2759.GenerateNTResponse(a[0], a[1], a[2], a[3]) })
+		r, err := rfc2759.GenerateNTResponse(A(0), A(1), A(2), A(3))
 		return held(r, err, func() {
-			rfc2759.GenerateNTResponse(other(unhx(args[0])), unhx(args[1]), other(unhx(args[2])), unhx(args[3]))
+			rfc2759.GenerateNTResponse(other(A(0)), A(1), other(A(2)), A(3))
 		})
 	case "authresp":
-		priorVariants([][]byte{unhx(args[0]), unhx(args[1]), unhx(args[2]), unhx(args[3]), unhx(args[4])}, func(a [][]byte) {
+		priorVariants([][]byte{A(0), A(1), A(2), A(3), A(4)}, func(a [][]byte) {
 			rfc2759.GenerateAuthenticatorResponse(a[0], a[1], a[2], a[3], a[4])
 		})
-		s, err := rfc2759.GenerateAuthenticatorResponse(unhx(args[0]), unhx(args[1]), unhx(args[2]), unhx(args[3]), unhx(args[4]))
+		s, err := rfc2759.GenerateAuthenticatorResponse(A(0), A(1), A(2), A(3), A(4))
 		if err != nil {
 			return "err"
 		}
@@ -108,26 +130,26 @@ func evalC19(op string, args []string) string {
 		}
 		return "ok " + s
 	case "masterkey":
-		return held(rfc3079.GetMasterKey(unhx(args[0]), unhx(args[1])), nil, func() {
-			rfc3079.GetMasterKey(other(unhx(args[0])), other(unhx(args[1])))
+		return held(rfc3079.GetMasterKey(A(0), A(1)), nil, func() {
+			rfc3079.GetMasterKey(other(A(0)), other(A(1)))
 		})
 	case "startkey":
 		n, err := strconv.ParseUint(args[1], 10, 32)
 		if err != nil {
 			panic("bad uint in case line: " + args[1])
 		}
-		r, err := rfc3079.GetAsymmetricStartKey(unhx(args[0]), rfc3079.KeyLength(n), flag01(args[2]))
+		r, err := rfc3079.GetAsymmetricStartKey(A(0), rfc3079.KeyLength(n), flag01(args[2]))
 		return held(r, err, func() {
-			rfc3079.GetAsymmetricStartKey(unhx(args[0]), rfc3079.KeyLength(n), !flag01(args[2]))
-			rfc3079.GetAsymmetricStartKey(other(unhx(args[0])), rfc3079.KeyLength(n), flag01(args[2]))
+			rfc3079.GetAsymmetricStartKey(A(0), rfc3079.KeyLength(n), !flag01(args[2]))
+			rfc3079.GetAsymmetricStartKey(other(A(0)), rfc3079.KeyLength(n), flag01(args[2]))
 		})
 	case "makekey":
-		priorVariants([][]byte{unhx(args[0]), unhx(args[1])}, func(a [][]byte) { rfc3079.MakeKey(a[0], a[1], flag01(args[2])) })
-		r, err := rfc3079.MakeKey(unhx(args[0]), unhx(args[1]), flag01(args[2]))
+		priorVariants([][]byte{A(0), A(1)}, func(a [][]byte) { rfc3079.MakeKey(a[0], a[1], flag01(args[2])) })
+		r, err := rfc3079.MakeKey(A(0), A(1), flag01(args[2]))
 		return held(r, err, func() {
 			// (the shipped MS-CHAPv2 server example derives the receive key and then the send key)
-			rfc3079.MakeKey(unhx(args[0]), unhx(args[1]), !flag01(args[2]))
-			rfc3079.MakeKey(other(unhx(args[0])), unhx(args[1]), flag01(args[2]))
+			rfc3079.MakeKey(A(0), A(1), !flag01(args[2]))
+			rfc3079.MakeKey(other(A(0)), A(1), flag01(args[2]))
 		})
 	}
 	return "UNKNOWN-OP"
@@ -135,7 +157,7 @@ func evalC19(op string, args []string) string {
 
 // ---- generators ----
 
-var c19Boundary = []rune{0x00, 0x01, 0x7f, 0x80, 0x7ff, 0x800, 0xd7ff, 0xe000, 0xfeff, 0xfffd, 0xfffe, 0xffff,
+var c19Boundary = []rune{'e', 0x0301, 0x0327, 0x0301, 0x212b, 0x2126, 0xf900, 0x1100, 0x1161, 0x11a8, 0x00, 0x01, 0x7f, 0x80, 0x7ff, 0x800, 0xd7ff, 0xe000, 0xfeff, 0xfffd, 0xfffe, 0xffff,
 	0x10000, 0x10001, 0x1f600, 0xfffff, 0x100000, 0x10fffd, 0x10ffff, 'a', 'Z', '0', ' ', 0xe9, 0x3a9, 0x20ac, 0x4e2d}
 
 // rune of a given style: 0 ASCII printable, 1 two-octet, 2 three-octet, 3 astral, 4 boundary, 5 any scalar
